@@ -4,7 +4,7 @@
    the anti-aliased variant are tied to the code by the correspondence suites and the geometric oracle only
    (DESIGN.md, C06 partial). *)
 From Coq Require Import ZArith List.
-From TS Require Import Model.Edge Model.Hairline Proofs.HairlineProofs.
+From TS Require Import Base.F32 Model.Rect Model.Edge Model.Hairline Model.LineClip Proofs.RectPoints Proofs.HairlineProofs Proofs.LineClipProofs.
 Import ListNotations.
 Local Open Scope Z_scope.
 
@@ -56,6 +56,22 @@ Theorem C06_hair_tracks :
   forall num den slope st k, Z.abs num <= Z.abs den -> den <> 0 -> fdot16_div num den = Some slope -> 0 <= k ->
   Z.abs (((st + k * slope) - st) * den - k * num * 65536) <= k * Z.abs den.
 Proof. exact hair_tracks. Qed.
+
+(* the scalar line clipper in front of the DDA (bit-exact model of line_clipper::intersect, after fix a85a284): for any
+   finite segment and any valid clip - and whatever the two intersection helpers compute, NaN included - no returned
+   coordinate is strictly outside the clip.  (Before the fix the Y of an X chop came from the unchopped segment: a
+   steep line crossing x = left by a denormal amount was handed on far below the clip and blitted in row `height`.) *)
+Theorem C06_line_clip_not_outside :
+  forall s0 s1 clip bnd p q,
+  fin (px s0) -> fin (py s0) -> fin (px s1) -> fin (py s1) -> clip_ok clip ->
+  from_ltrb (F32.min (px s0) (px s1)) (F32.min (py s0) (py s1)) (F32.max (px s0) (px s1)) (F32.max (py s0) (py s1)) = Some bnd ->
+  intersect s0 s1 clip = Some (p, q) -> nout clip p /\ nout clip q.
+Proof. exact intersect_not_outside. Qed.
+Check C06_line_clip_not_outside :
+  forall s0 s1 clip bnd p q,
+  fin (px s0) -> fin (py s0) -> fin (px s1) -> fin (py s1) -> clip_ok clip ->
+  from_ltrb (F32.min (px s0) (px s1)) (F32.min (py s0) (py s1)) (F32.max (px s0) (px s1)) (F32.max (py s0) (py s1)) = Some bnd ->
+  intersect s0 s1 clip = Some (p, q) -> nout clip p /\ nout clip q.
 
 (* non-vacuity: a diagonal from (1.5,1.5) to (5.5,3.5) on an 8x8 clip *)
 Example C06_example :
